@@ -194,7 +194,7 @@ _rep("C08", "text", "fd passing agreed only after OK.", "fd passing agreed only 
 CLAIMS["C08"]["note"] = ("DBusString / DBusCredentials are ghost-modelled in the step job; SHA-1 itself, keyring files, the first cookie response, the line splitter and the 16 KiB buffering bound are outside the claim. "
      "Found and fixed F11 (assertion abort on 'AUTH \\nx').")
 _rep("C10", "text", "Composite of the corresponding jobs, re-run.", "Also: the transport skeletons (a corrupt stream disconnects that transport after delivering the complete messages before it; nothing is read into the "
-     "loader before authentication) and the expiry of incomplete connections (a peer that has not completed Hello within auth_timeout is closed whether or not it authenticated; 6 concrete time configurations). "
+     "loader before authentication) and the expiry of incomplete connections (a peer that has not completed Hello within auth_timeout is closed whether or not it authenticated; 6 concrete time configurations), and the accept gate / accept step of C13 (the bus stops listening exactly at max_incomplete_connections and resumes below it; a failed accept leaves nothing behind). "
      "Composite of the corresponding jobs, re-run.")
 _rep("C11", "text", "(self-composition, per signature shape).", "(self-composition, per signature shape); L2 — the loader loop consumes exactly header+body bytes per frame and corruption is sticky; L4 — the transport hands "
      "every framed message to the connection, in order, before it disconnects for corruption, and moves leftover handshake bytes into the loader exactly once, first; L5 — one socket step never reads into the loader "
@@ -203,8 +203,8 @@ CLAIMS["C11"]["note"] = "A direct multi-chunk run through the heap-string loader
 _rep("C13", "text", "below the limit it is unaffected.", "below the limit it is unaffected. Connections: after a Hello that bus_connections_check_limits admitted and bus_connection_complete completed, the completed count "
      "and the per-user count are within max_completed_connections / max_connections_per_user.")
 _rep("C13", "note", "Not covered: completed / per-user / incomplete connection limits (bus_connection_complete drags in login-info string building and the listener watch machinery), <limit> parsing.",
-     "Not covered: <limit> parsing; for max_incomplete_connections the gate function is checked as an inductive step (listening exactly while below the limit), the increment in bus_connections_setup_connection is by reading. Found and fixed F17.")
-CLAIMS["C13"]["text"] += (" Accept gate: the real bus_context_check_all_watches keeps 'listening <=> incomplete connections < max_incomplete_connections' and toggles every listening server exactly once when that changes (inductive step over one accept / drop, limit up to 100000).")
+     "Not covered: <limit> parsing; for max_incomplete_connections the gate function is checked as an inductive step (listening exactly while below the limit), and the real bus_connections_setup_connection is checked as one step from an open gate. Found and fixed F17.")
+CLAIMS["C13"]["text"] += (" Accept gate: the real bus_context_check_all_watches keeps 'listening <=> incomplete connections < max_incomplete_connections' and toggles every listening server exactly once when that changes (inductive step over one accept / drop, limit up to 100000). Accept step: the real bus_connections_setup_connection counts and references an accepted connection once, appends it behind the older ones, stays within the limit and re-evaluates the gate; when any of its 10 fallible steps fails or a security module refuses, count, list, reference and callbacks are as before and the per-connection block is freed once.")
 _rep("C14", "text", "a retry succeeds with the reference result.", "a retry succeeds with the reference result. Library side: DBusString replace_len / copy_len / insert_bytes on real heap strings, and header edits "
      "(set / delete field, strip unknown fields), with one failing allocation: a failed edit leaves every byte, the length and the padding as they were and succeeds on retry. Connection completion (Hello) with any "
      "single failing step leaves lists, counters, name, policy and the per-user count unchanged.")
